@@ -288,6 +288,10 @@ def run_impl(p):
             if p["vseed"] % 4 == 3 and p["dtype"] in ("int64", "float64", "bool") and p["ndata"] > 0:
                 data = data.tolist()          # the flat buffer as a plain Python list (its element type is then numpy's default for it)
             ra = RaggedArray(data, shape)
+            # the row lengths belong to the caller: overwriting the array they came from leaves the RaggedArray as it was built
+            larr = shape if isinstance(shape, np.ndarray) else shape[1] if isinstance(shape, tuple) else None
+            if larr is not None and larr.size and p["ndata"] == sum(lens):
+                larr[...] = larr[::-1].copy() + 1
             return _obs_array(ra, _other_dtype(p["dtype"]))
         return guarded(f)
     raise ValueError(p)
